@@ -98,6 +98,8 @@ func (m *model) base(b Base) uint32 {
 		return m.params[b.Idx] << b.Shift
 	case "local+param<<sh":
 		return m.locals[b.Idx] + m.params[b.Idx2]<<b.Shift
+	case "wrap64": // i32.wrap_i64 of an i64 whose upper half is non-zero
+		return m.params[b.Idx] + b.C
 	}
 	return 0
 }
@@ -337,6 +339,10 @@ func emitBase(b *wasmenc.B, x Base) {
 		b.LocalGet(uint32(x.Idx)).I32Const(int32(x.Shift)).Raw(wasmenc.OpI32Shl)
 	case "local+param<<sh":
 		b.LocalGet(uint32(localL0 + x.Idx)).LocalGet(uint32(x.Idx2)).I32Const(int32(x.Shift)).Raw(wasmenc.OpI32Shl).Raw(wasmenc.OpI32Add)
+	case "wrap64":
+		// ((zext(param) + C) | K<<32) wrapped to i32: the i64 carries garbage in its upper half
+		b.LocalGet(uint32(x.Idx)).Raw(wasmenc.OpI64ExtendI32U).I64Const(int64(x.C)).Raw(wasmenc.OpI64Add).
+			I64Const(int64(uint64(x.Shift)+1) << 32).Raw(wasmenc.OpI64Or).Raw(wasmenc.OpI32WrapI64)
 	}
 }
 
@@ -720,7 +726,10 @@ func (g *gen) baseFor(ea uint64, off uint32) Base {
 	switch uni(t, 20, "basekind") {
 	case 0, 1, 8, 9, 10, 14, 15, 16:
 		return Base{Kind: "const", C: want}
-	case 2, 11, 12, 13, 17, 18, 19:
+	case 17, 18:
+		p := rapid.IntRange(0, 2).Draw(t, "p")
+		return Base{Kind: "wrap64", Idx: p, C: want - g.md.params[p], Shift: uint8(rapid.IntRange(0, 3).Draw(t, "hi"))}
+	case 2, 11, 12, 13, 19:
 		p := rapid.IntRange(0, 2).Draw(t, "p")
 		if g.md.params[p] == want {
 			return Base{Kind: "param", Idx: p}
@@ -870,9 +879,13 @@ func (g *gen) reusePattern() []Op {
 	w := pick(t, "rw", []int{1, 2, 4, 8})
 	ea := target(t, g.md.size, w)
 	set := Op{Kind: "setlocal", Local: k, Base: Base{Kind: "const", C: uint32(ea)}}
-	if uni(t, 3, "rfromparam") == 0 {
+	switch uni(t, 4, "rsetkind") {
+	case 0:
 		p := rapid.IntRange(0, 2).Draw(t, "p")
 		set.Base = Base{Kind: "param+const", Idx: p, C: uint32(ea) - g.md.params[p]}
+	case 1: // the address is a wrapped i64 whose upper half is non-zero
+		p := rapid.IntRange(0, 2).Draw(t, "p")
+		set.Base = Base{Kind: "wrap64", Idx: p, C: uint32(ea) - g.md.params[p], Shift: uint8(rapid.IntRange(0, 3).Draw(t, "hi"))}
 	}
 	g.md.exec([]Op{set})
 	acc := func() Op {
@@ -882,8 +895,23 @@ func (g *gen) reusePattern() []Op {
 		}
 		return Op{Kind: "load", Width: w, T64: true, Off: off, Base: Base{Kind: "local", Idx: k}}
 	}
-	out := []Op{set, acc()}
-	switch uni(t, 5, "rmid") {
+	first := acc()
+	out := []Op{set}
+	switch uni(t, 4, "rfirstwrap") {
+	case 0: // the first access happens on only one path into the merge
+		out = append(out, Op{Kind: "if", Param: rapid.IntRange(0, 2).Draw(t, "cp"), Body: []Op{first}})
+	case 1:
+		out = append(out, Op{Kind: "block", Body: []Op{first}})
+	default:
+		out = append(out, first)
+	}
+	switch uni(t, 7, "rmid") {
+	case 5: // a control-flow merge without any access or call on its paths
+		out = append(out, Op{Kind: "if", Param: rapid.IntRange(0, 2).Draw(t, "cp"), Body: []Op{{Kind: "setlocal", Local: (k + 1) % 4, Base: Base{Kind: "const", C: 7}}}})
+		g.md.exec(out[len(out)-1:])
+	case 6:
+		out = append(out, Op{Kind: "loop", Body: []Op{{Kind: "setlocal", Local: (k + 1) % 4, Base: Base{Kind: "const", C: 9}}}})
+		g.md.exec(out[len(out)-1:])
 	case 0:
 		out = append(out, Op{Kind: "call"})
 	case 1:
